@@ -348,21 +348,33 @@ class Prefixed(BaseModel):
         return round(self._value() - to_prefixed(other)._value(), EPSILON)
 
     def __lt__(self, other) -> bool:
+        if not isinstance(other, (Prefixed, int, float, str, Decimal)):
+            return NotImplemented
         return self._diff(other) < 0
 
     def __le__(self, other) -> bool:
+        if not isinstance(other, (Prefixed, int, float, str, Decimal)):
+            return NotImplemented
         return self._diff(other) <= 0
 
     def __eq__(self, other) -> bool:
+        if not isinstance(other, (Prefixed, int, float, str, Decimal)):
+            return NotImplemented
         return self._diff(other) == 0
 
     def __ne__(self, other) -> bool:
+        if not isinstance(other, (Prefixed, int, float, str, Decimal)):
+            return NotImplemented
         return self._diff(other) != 0
 
     def __gt__(self, other) -> bool:
+        if not isinstance(other, (Prefixed, int, float, str, Decimal)):
+            return NotImplemented
         return self._diff(other) > 0
 
     def __ge__(self, other) -> bool:
+        if not isinstance(other, (Prefixed, int, float, str, Decimal)):
+            return NotImplemented
         return self._diff(other) >= 0
 
 
